@@ -139,10 +139,12 @@ def gen_synthetic(rng):
         samples[q] = {"amp": gen_signal(rng, T, akind),
                       "det": [rng.gauss(0, 5) for _ in range(T)] if rng.random() < 0.5 else [rng.uniform(-5, 5)] * T,
                       "phase": [rng.choice([0.0, 0.3, 1.57])] * T}
-    dt = rng.choice([0.1, 0.25, 0.5, 1.0, 2.5, 10.0, 40.0])
+    dt = rng.choice([0.1, 0.25, 0.3, 0.5, 0.7, 0.8, 1.0, 2.5, 10.0, 40.0])
     if T / dt > 130:
         dt = 0.5
-    extra = [rng.choice([0.5, 0.97, 0.999, 1 - 0.3 / T, 1 - 0.9 / T]) for _ in range(rng.randint(0, 2))]
+    # extra evaluation times, also such that a step STARTS before the last sample (T-1) and has its midpoint after it
+    extra = [rng.choice([0.5, 0.97, 0.999, 1 - 0.3 / T, 1 - 0.9 / T, 1 - 1.1 / T, 1 - 1.5 / T, 1 - 1.9 / T])
+             for _ in range(rng.randint(0, 2))]
     return {"kind": "synthetic", "amp_kind": akind, "mode": mode, "dt": dt, "qids": qids, "samples": samples,
             "tt": target_times(rng, T, dt, extra), "max_duration": T}
 
@@ -455,7 +457,7 @@ def property_check(ctx, case, r):
                     inside = mids[k] <= T - 1
                     key_ = F11 if (inside and f11) else F09
                     ctx.violation(f"amplitude of atom {q} at step {k} (t_mid={mids[k]!r} ns, samples end at {T - 1} ns, "
-                                  f"{len(col)} steps) is {v!r} < 0" + ("" if inside else ": only the last row is clamped"),
+                                  f"{len(col)} steps) is {v!r} < 0" + ("" if inside else ": a step whose midpoint lies after the last sample is extrapolated and must be clamped"),
                                   {"case": case, "finding_key": key_, "step": k, "atom": q})
             # (3) equals the shape-preserving interpolation of the samples at the midpoint
             ref = PchipInterpolator(grid, np.array(sig), extrapolate=True)(np.array(mids))
@@ -548,8 +550,8 @@ def run(ctx):
     ctx.obligation("correspondence:Model.DriveSamples.extract(float_arith)==_extract_omega_delta_phi (bit-exact)",
                    corr_ok, detail, kind="correspondence")
     ctx.rule = ("synthetic sample dictionaries (2..40 ns; amplitude constant/ramp/Blackman/zeros+pulse/random; 1..4 "
-                "atoms, all or a subset addressed; dt in {0.1,0.25,0.5,1,2.5,10,40}; extra evaluation times inside the "
-                "last ns), malformed ones (short signal, duration mismatch, 1 sample) and real Pulser sequences "
+                "atoms, all or a subset addressed; dt in {0.1,0.25,0.3,0.5,0.7,0.8,1,2.5,10,40}; extra evaluation times inside the "
+                "last two ns, so that steps straddle the last sample), malformed ones (short signal, duration mismatch, 1 sample) and real Pulser sequences "
                 "(constant/ramp/Blackman/interpolated/composite waveforms; global, local, global+local, global+DMM; "
                 "amplitude/detuning noise) sampled by HamiltonianData; ALL trajectories (3-4) of PulserData.get_sequences "
                 "for one noise model per NoiseTrajectory field in which only that field varies (SPAM, doppler, "
